@@ -186,12 +186,28 @@ def c17(tier):
     # the same declarations expanded after DIFFERENT histories (reverse order, each alone): state kept between invocations of
     # the derive inside one compiler process must not reach the output
     hist = texts[:: max(1, len(texts) // 40)][:40] + rep_decls[-1:]
+    n_base = len(hist)
+    # same enum name, different shape / repr / iterator mode (seed T4-r7m2: generated impl text cached per (struct name, item type); the
+    # cached text of a table iterator was reused for a later range iterator of a wide repr)
+    strip = lambda t: re.sub(r"#\[derive\([^)]*\)\]\s*", "", t)
+    for r in ("i32", "u64", "i128", "usize", "i8"):
+        g, h = make_decl(r, [3, 4, 5], renames=False), make_decl(r, [1, 5, 9], renames=False)
+        for d, cfgs_ in ((h, (Config([("iter", {"mode": "table"}), "range", "names"]), Config([("iter", {"mode": "next_and_back"}), "range"]))),
+                         (g, (Config([("iter", {"mode": "range"}), "range", "names"]), Config(["iter", "range"]), Config([("iter", {"mode": "table"}), "names"]),
+                              Config([("iter", {"mode": "table_inline"})]))),
+                         (h, (Config(["iter", "names", "as_str", "from_str"]),))):
+            for c_ in cfgs_:
+                hist.append(strip(d.render(c_.attr_lines(), indent="")))
     fwd = e1.expand_many(hist)
     rev = e1.expand_many(hist[::-1])[::-1]
-    alone = [e1.expand_many([t])[0] for t in hist[:8]]
-    res.extra["history_replication"] = {"declarations": len(hist), "orders": ["forward", "reverse", "alone (first 8)"]}
+    # (forward and reverse order can be wrong in the same way when the first declaration of either order fills the cache: the
+    #  same-name family is therefore also expanded one declaration per process)
+    alone_idx = list(range(8)) + list(range(n_base, len(hist)))
+    with cf.ThreadPoolExecutor(max_workers=NCPU) as ex:
+        alone = dict(zip(alone_idx, ex.map(lambda i: e1.expand_many([hist[i]])[0], alone_idx)))
+    res.extra["history_replication"] = {"declarations": len(hist), "orders": ["forward", "reverse", "alone (%d)" % len(alone_idx)]}
     for i, t in enumerate(hist):
-        variants = [fwd[i], rev[i]] + ([alone[i]] if i < len(alone) else [])
+        variants = [fwd[i], rev[i]] + ([alone[i]] if i in alone else [])
         res.transitions += len(variants)
         if len(set(variants)) != 1:
             a, b = variants[0], next(v for v in variants if v != variants[0])
